@@ -25,6 +25,7 @@ var c08Produces = [][]string{
 	{"text/plain; charset=utf-8", "application/json"},
 	{"text/csv"},
 	{},
+	{"application/json", "text/plain"}, // the API default listed first
 }
 
 var c08Accepts = []string{"", "text/plain", "application/json", "*/*", "text/*", "image/png", "text/plain;q=0.1, application/json;q=0.9", "text/csv;q=0"}
@@ -67,7 +68,7 @@ func c08ProbeProducer(p runtime.Producer) string {
 	return "?"
 }
 
-func c08Build(pi, si int) *Context {
+func c08Build(pi, si int, late bool) *Context {
 	d := vAPIDesc{basePath: "/"}
 	for _, m := range []string{"GET", "HEAD", "POST"} {
 		d.ops = append(d.ops, vOp{method: m, path: "/thing", id: "op" + m, produces: c08Produces[pi], success: c08Success[si]})
@@ -102,12 +103,20 @@ func c08Build(pi, si int) *Context {
 			return nil, nil
 		}))
 	}
-	api.ServeError = func(rw http.ResponseWriter, r *http.Request, err error) {
+	responder := func(rw http.ResponseWriter, r *http.Request, err error) {
 		vRec.servedErr = err
 		vRec.errCount++
 	}
+	// the API's error responder is the one in place when a response is written,
+	// whether it was assigned before or after the context was created
+	if !late {
+		api.ServeError = responder
+	}
 	ctx := NewContext(doc, api, nil)
 	ctx.router = DefaultRouter(ctx.spec, ctx.api, WithDefaultRouterLoggerFunc(ctx.debugLogf))
+	if late {
+		api.ServeError = responder
+	}
 	return ctx
 }
 
@@ -124,7 +133,12 @@ func c08Norm(s string) string {
 func VerifC08Respond() {
 	pi := zv.Choose("produces", len(c08Produces))
 	si := zv.Choose("success", len(c08Success))
-	ctx := zv.Cached("c08-"+string(rune('0'+pi))+string(rune('0'+si)), func() interface{} { return c08Build(pi, si) }).(*Context)
+	late := zv.Choose("responder-assigned-after-context", 2) == 1
+	key := "c08-" + string(rune('0'+pi)) + string(rune('0'+si))
+	if late {
+		key += "L"
+	}
+	ctx := zv.Cached(key, func() interface{} { return c08Build(pi, si, late) }).(*Context)
 	vRec = &vRecorder{}
 	c08S = &c08Script{outcome: zv.Choose("outcome", 5)}
 	method := []string{"GET", "HEAD", "POST"}[zv.Choose("method", 3)]
